@@ -112,3 +112,18 @@ func VerifOutgoingTCPTransportSend(port uint16, persistency Persistency, mtu int
 	s.SetMTU(mtu)
 	return t.runReceive, t.sendFrame, t.Close, nil
 }
+
+// VerifFaceSendAndClose returns, for a face of the face table (e.g. one a listener accepted), the sendFrame of
+// its transport (what the link service's send loop calls per frame) and the face's Close (what faces/destroy,
+// the expiration handler and shutdown call).
+func VerifFaceSendAndClose(id uint64) (send func([]byte), closeF func(), ok bool) {
+	ls := FaceTable.Get(id)
+	if ls == nil {
+		return nil, nil, false
+	}
+	nl, isNdnlp := ls.(*NDNLPLinkService)
+	if !isNdnlp || nl.transport == nil {
+		return nil, nil, false
+	}
+	return nl.transport.sendFrame, ls.Close, true
+}
